@@ -264,7 +264,7 @@ def assignment_world(idx):
     return w, "assign-%s" % name
 
 
-NOISE_FREE = ["K1", "K2", "K4", "P1", "Q1", "N1", "N2", "M1", "G1", "S1", "V1", "W1", "V2", "I1", "I2", "Y0", "H1", "H2"]
+NOISE_FREE = ["K1", "K2", "K4", "P1", "Q1", "N1", "N2", "M1", "G1", "S1", "V1", "W1", "V2", "I1", "I2", "Y0", "H1", "H2", "MA", "S2"]
 
 
 def model_world(scenario):
